@@ -688,6 +688,8 @@ static void restore_jmpbuf_rstack(struct mcount_thread_data *mtdp, unsigned long
 
 /* it's crazy to call vfork() concurrently */
 static int vfork_parent;
+/* the thread that called vfork(): only this one (and its child) is affected */
+static struct mcount_thread_data *vfork_mtdp;
 static int vfork_rstack_idx;
 static int vfork_record_idx;
 static struct mcount_ret_stack vfork_rstack;
@@ -696,6 +698,7 @@ static struct mcount_shmem vfork_shmem;
 static void prepare_vfork(struct mcount_thread_data *mtdp, struct mcount_ret_stack *rstack)
 {
 	/* save original parent info */
+	vfork_mtdp = mtdp;
 	vfork_parent = getpid();
 	vfork_rstack_idx = mtdp->idx;
 	vfork_record_idx = mtdp->record_idx;
@@ -1047,7 +1050,8 @@ again:
 			setup_vfork(mtdp);
 	}
 
-	if (unlikely(vfork_parent))
+	/* other threads of the parent keep running during a vfork */
+	if (unlikely(vfork_parent) && mtdp == vfork_mtdp)
 		rstack = restore_vfork(mtdp, rstack);
 
 	dyn_idx = rstack->dyn_idx;
